@@ -3,7 +3,7 @@ CONSTANTS
   Modes = {"expr", "lit", "sig"}
   Names <- LvNames1
   Nums <- LvNums1
-  Atoms <- LvAtoms1
+  Atoms <- NoneSet
   Opqs <- NoneSet
   LitTok = 2
   UnOps <- MinUn
